@@ -545,6 +545,28 @@ func (s *sched) byz() {
 	}
 	f := s.nt.faultyL[r.Intn(len(s.nt.faultyL))]
 	var ks []int
+	if r.Intn(8) == 0 { // votes whose slot / address / signer do not belong together
+		t := []string{"pv", "pc"}[r.Intn(2)]
+		b := s.pickB(rr, true)
+		v := r.Intn(n)
+		replay := false
+		for _, m := range s.nt.log {
+			if m.ok && !m.prop && m.sender == v && m.t == t && m.r == rr && m.b == b {
+				replay = true
+			}
+		}
+		cs := s.xvoteCombos(f, v, t, rr, b, replay && !s.nt.faulty[v])
+		for _, k := range cs {
+			if k >= 0 {
+				for _, i := range s.correctL {
+					if r.Intn(2) == 0 && s.started[i] {
+						s.deliver(i, k)
+					}
+				}
+			}
+		}
+		return
+	}
 	if r.Intn(4) == 0 { // proposal
 		if s.w.proposers[min(rr, maxRounds)] != f && r.Intn(5) != 0 {
 			for d := 0; d < 4; d++ {
@@ -1025,6 +1047,12 @@ func genKind(r *rand.Rand, kind string) core.Case {
 		return genUnsafe(r)
 	case "late-polka":
 		return genLatePolka(r)
+	case "forged-slots":
+		return genForgedSlots(r)
+	case "locked-pol":
+		return genLockedPol(r)
+	case "claim-replay":
+		return genClaimReplay(r)
 	default:
 		return genSched(r, kind == "sched-long", false)
 	}
@@ -1049,5 +1077,14 @@ func genAll(r *rand.Rand, tier string, emit func(core.Case)) {
 	}
 	for i := 0; i < nLate; i++ {
 		emit(genLatePolka(r))
+	}
+	for i := 0; i < nLate; i++ {
+		emit(genLockedPol(r))
+	}
+	for i := 0; i < nLate/2; i++ {
+		emit(genForgedSlots(r))
+	}
+	for i := 0; i < nLate/2; i++ {
+		emit(genClaimReplay(r))
 	}
 }
